@@ -14,6 +14,7 @@ RULE = ("G-cli: (1) format strings = every name of the usage text and of the dri
         "debug switches) in any group and position, every spelling (short/long, attached/detached/=, flag clusters), 0..2 inputs, "
         "defines (every spelling, before/after the input, in a later group) aimed at constants whose declared default is a literal, a "
         "forward label, a later constant, an address difference or the current address, the constant being used in the output, "
+        "defines of every radix and sign x size-sensitive consumers (#dN, #d, @, sizeof, u8/s8 parameters), "
         "run through driver::drive on the mock file server and through the real binary.  non-trivial = distinct format string with a "
         "parameter or an unknown name; distinct input name; distinct command line with >= 2 groups or a derived name or a global "
         "option outside the first group")
@@ -644,6 +645,107 @@ def stream_commands(chk, c, need):
     return cases, ms
 
 
+# ================================================================================================ stream 3b: defines x size-sensitive consumers
+# what a define's value is (tools/cli_ref.define = Model/Driver.parse_define: `-dN=-<literal>` is the UNSIZED negation, a positive
+# radix literal carries its digit-count size) decides what each consumer of the constant must do with it
+CONSUMERS = {
+    "d8": "X = 0\n#d8 X\n", "d4": "X = 0\n#d4 X\n", "d9": "X = 0\n#d9 X\n", "d16": "X = 0\n#d16 X\n",
+    "d": "X = 0x00\n#d X\n",                      # unsized directive: needs a definite size
+    "cat": "X = 0x00\n#d X @ 0x1\n",              # concatenation: needs a definite size
+    "sizeof": "X = 0x00\n#d8 sizeof(X)\n",
+    "u8": "#ruledef\n{\n    ld {v: u8} => 0x55 @ v\n}\nX = 0\nld X\n",
+    "s8": "#ruledef\n{\n    ld {v: s8} => 0x55 @ v\n}\nX = 0\nld X\n",
+}
+CONSUMER_LITERALS = ["0", "1", "0x7f", "0x80", "0x81", "0xff", "0x100", "0x0ff", "0x00", "0x1", "0xf", "0x10", "%1111111", "%10000000",
+                     "%11111111", "0b1", "0b0", "0b00000001", "0b100000000", "0o177", "0o200", "0o377", "0o400", "0o1", "$ff", "$80",
+                     "$7f", "$0", "127", "128", "129", "255", "256", "7", "8", "15", "16", "0x7fff", "0x8000", "0xffff", "0x1_0", "0xFF"]
+
+
+def min_size(v):
+    return 1 if v == 0 else ((-(v + 1)).bit_length() + 1 if v < 0 else v.bit_length())
+
+
+def low_bits(v, n):
+    return "".join("1" if (v >> (n - 1 - i)) & 1 else "0" for i in range(n))
+
+
+def consumer_expect(kind, v, size):
+    """the output bits, or None when the program must be rejected (C04's range rules over (value, declared size))"""
+    if kind in ("d8", "d4", "d9", "d16"):
+        n = int(kind[1:])
+        return low_bits(v, n) if (size if size is not None else min_size(v)) <= n else None
+    if kind == "d":
+        return low_bits(v, size) if size is not None else None
+    if kind == "cat":
+        return low_bits(v, size) + "0001" if size is not None else None
+    if kind == "sizeof":
+        return low_bits(size, 8) if size is not None and size < 256 else None
+    if kind == "u8":
+        return "01010101" + low_bits(v, 8) if 0 <= v <= 255 else None
+    if kind == "s8":
+        return "01010101" + low_bits(v, 8) if -128 <= v <= 127 else None
+    raise ValueError(kind)
+
+
+def stream_consumers(chk, c):
+    cases = []
+    k = 0
+    for lit in CONSUMER_LITERALS:
+        for sign in ("", "-"):
+            raw = "X=" + sign + lit
+            for kind in CONSUMERS:
+                sp = ("attached", "detached", "long=", "longdetached")[k % 4]
+                k += 1
+                cases.append((raw, kind, cli_gen.spell_value(chk.rng, "d", raw, sp)[0]))
+    impl_lines = ["C\t%s\t%s=%s\tBinStr" % (";".join(vlib.hx(a) for a in ["customasm", "p.asm", "-q", "-p"] + w), vlib.hx("p.asm"),
+                                            vlib.hx(CONSUMERS[kind])) for raw, kind, w in cases]
+    res = {p: vlib.run_lines(capture_cmd(c.bins[p] + "/cli"), impl_lines) for p in c.bins}
+    mres = vlib.run_lines([c.model], ["D\t" + vlib.hx(raw) for raw, _, _ in cases]) if c.model else [None] * len(cases)
+    dist = {"accepted": 0, "rejected": 0, "negated": 0}
+    bad = 0
+    for idx, (raw, kind, w) in enumerate(cases):
+        ref = cli_ref.define(raw)
+        if mres[idx] is not None:
+            want = "ERR" if ref is None else "OK %s %s" % (vlib.hx(ref[0]), ref[1])
+            if mres[idx] != want:
+                report(chk, c, "the Python reference (%s) and the Coq model (%s) disagree on the define %r" % (want, mres[idx], raw),
+                       {"kind": "define-consumer", "define": raw, "reference": want, "model": mres[idx]}, found=False)
+                continue
+        _, hexv, sz = ref[1].split(":")
+        v, size = int(hexv, 16), (None if sz == "-" else int(sz, 16))
+        exp = consumer_expect(kind, v, size)
+        a = parse_answer(res["debug"][idx])
+        argv = ["customasm", "p.asm", "-q", "-p"] + w
+        rp = {"kind": "define-consumer", "stream": "consumers", "define": raw, "consumer": kind, "program": CONSUMERS[kind], "argv": argv,
+              "value": v, "declared_size": size, "expected_bits": exp, "impl": a["raw"][:300]}
+        chk.nontriv(("consumer", raw, kind))
+        dist["negated"] += 1 if raw.startswith("X=-") else 0
+        if "release" in res and parse_answer(res["release"][idx])["status"] != a["status"]:
+            report(chk, c, "debug and release builds disagree on -d%s with `%s`" % (raw, kind), dict(rp, kind="profile-divergence"))
+            bad += 1
+            continue
+        got = None
+        if a["status"] == "OK" and a["probes"] and re.fullmatch(r"[0-9a-f]*|e", a["probes"][-1]):
+            got = "" if a["probes"][-1] == "e" else bytes.fromhex(a["probes"][-1]).decode()
+        elif a["status"] != "ERR":
+            report(chk, c, "-d%s with `%s`: %s" % (raw, CONSUMERS[kind].split("\n")[-2], a["status"]), rp)
+            bad += 1
+            continue
+        dist["accepted" if got is not None else "rejected"] += 1
+        if got != exp:
+            bad += 1
+            vs = "%d (%s)" % (v, "unsized" if size is None else "size %d" % size)
+            report(chk, c, "-d%s is the value %s; `%s` must %s, the implementation %s" % (
+                raw, vs, CONSUMERS[kind].strip().split("\n")[-1],
+                "be rejected (the value does not fit / has no definite size)" if exp is None else "emit " + exp,
+                "rejects it" if got is None else "emits " + got), rp, cls="define_size")
+        if idx % 150 == 11:
+            chk.sample({"define": raw, "consumer": kind, "expected_bits": exp, "impl_bits": got})
+    chk.count("define-consumers", len(cases), **dist)
+    chk.cov["traces_validated_against_impl"] += len(cases)
+    chk.cov["disagreements_checked"] += bad
+
+
 # ================================================================================================ stream 4: the real binary
 def sane_for_disk(cs):
     for g in cs["groups"]:
@@ -791,6 +893,7 @@ def run(chk):
     need = calibrate(c)
     chk.cov["measured_minimum_budgets"] = need
     cases, ms = stream_commands(chk, c, need)
+    stream_consumers(chk, c)
     stream_real(chk, c, cases, ms, need)
     if c.degraded:
         # the broken tie itself, listed after the concrete failing inputs the streams found (if any) but within the printed five
@@ -840,6 +943,14 @@ def replay(chk, rep):
         now = vlib.run_lines(capture_cmd(c.bins["debug"] + "/cli"),
                              ["C\t%s\t%s=%s\t" % (";".join(vlib.hx(a) for a in argv), vlib.hx(n), vlib.hx(PROGRAMS["good"]))], shards=1)[0]
         print("input name: %r format: %s\nimplementation now: %s\nrecorded: %s\nmodel: %s" % (n, f, now[:400], r.get("impl"), r.get("model")))
+    elif kind == "define-consumer" or r.get("stream") == "consumers":
+        now = vlib.run_lines(capture_cmd(c.bins["debug"] + "/cli"),
+                             ["C\t%s\t%s=%s\tBinStr" % (";".join(vlib.hx(x) for x in r["argv"]), vlib.hx("p.asm"), vlib.hx(r["program"]))], shards=1)[0]
+        a = parse_answer(now)
+        bits = bytes.fromhex(a["probes"][-1]).decode() if a["status"] == "OK" and a["probes"] and a["probes"][-1] not in ("e", "-", "PANIC") else None
+        print("p.asm:\n%s\ncommand line: %r\nimplementation now: %s, output bits %s\nexpected (value %s, declared size %s): %s\nrecorded: %s" % (
+            r["program"], r["argv"], a["status"], bits, r.get("value"), r.get("declared_size"),
+            "rejected" if r.get("expected_bits") is None else r.get("expected_bits"), r.get("impl")))
     elif kind in ("command", "profile-divergence") and "argv" in r:
         names = [i for g in r.get("groups", []) for i in g.get("i", [])]
         now = vlib.run_lines(capture_cmd(c.bins["debug"] + "/cli"),
